@@ -2,7 +2,7 @@ from common import KERNEL, CORR
 
 PROP = dict(
     level="proof",
-    generators=["C16", "C01"],
+    generators=["C16", "C03"],   # the admission ops too: they observe the start / stop of the pipeline for every kind of input (publishers of each protocol, relay pull) and Dispose
     harness_timeout=900,
     trusted_base=[
         KERNEL, CORR,
